@@ -38,7 +38,7 @@ func c02Compare(what string, p int, err error, end int) error {
 // CheckC02: (success, offset) of SkipValue equals the reference pair for buffer nil /
 // fresh / used (primed, then the case's prior Steps).
 func CheckC02(c *core.Case) error {
-	in := []byte(c.In)
+	in := inputOf(c)
 	end, ok, _ := skipOracle(in)
 	if !ok {
 		return errOracle
@@ -52,8 +52,18 @@ func CheckC02(c *core.Case) error {
 		return e
 	}
 	b := replayBuffer(c)
-	for _, s := range c.Steps {
-		rjson.SkipValue(s.In, b)
+	if isFreshHistory(c) {
+		// the generators reuse one scratch slice for consecutive inputs (same first byte, new
+		// contents): replay the epoch the same way, every document written over the previous one
+		in = aliasInto(historyArena(c), in)
+		for _, s := range c.Steps {
+			rjson.SkipValue(aliasInto(historyArena(c), s.In), b)
+		}
+		in = aliasInto(historyArena(c), c.In)
+	} else {
+		for _, s := range c.Steps {
+			rjson.SkipValue(s.In, b)
+		}
 	}
 	p, err = rjson.SkipValue(in, b)
 	return c02Compare("used buffer", p, err, end)
@@ -61,7 +71,7 @@ func CheckC02(c *core.Case) error {
 
 type c02State struct {
 	r    *core.Rec
-	used rjson.Buffer
+	used *rjson.Buffer
 	hist history
 	prim *rjson.Buffer
 }
@@ -89,18 +99,16 @@ func (s *c02State) input(kind string, in []byte) error {
 	if e := c02Compare("nil", p, err, end); e != nil {
 		return e
 	}
-	p, err = rjson.SkipValue(in, s.prim)
-	if e := c02Compare("primed buffer", p, err, end); e != nil {
-		return e
+	if s.used == nil {
+		s.used = s.hist.next()
 	}
-	p, err = rjson.SkipValue(in, &s.used)
+	p, err = rjson.SkipValue(in, s.used)
 	if e := c02Compare("long-lived buffer", p, err, end); e != nil {
-		return &caseErr{&core.Case{Prop: "C02", Kind: kind, In: append([]byte(nil), in...), Steps: s.hist.steps("C02"), Strs: []string{freshHistory}}, e}
+		return &caseErr{&core.Case{Prop: "C02", Kind: kind, In: append([]byte(nil), in...), Steps: s.hist.steps("C02"), Strs: s.hist.marker()}, e}
 	}
 	s.hist.add(in)
 	if s.hist.full() {
-		s.used = rjson.Buffer{}
-		s.hist.reset()
+		s.used = s.hist.next()
 	}
 	return nil
 }
